@@ -8,7 +8,7 @@
    [lexpected OutAll (t,es)] = ListToken(tag t, es in iteration order);
    [lexpected OutLast (t,es)] = the token of iteration k-1 retagged t, or Token(None) tagged t when k = 0. *)
 From Coq Require Import List NArith ZArith Permutation.
-From SF Require Import Base.Str Base.Dec Tags.Model Gather.Model Gather.Proofs Loop.Model Loop.Proofs.
+From SF Require Import Base.Str Base.Dec Tags.Model Gather.Model Gather.Proofs Loop.Model Loop.Proofs Loop.Net Loop.NetProofs.
 Import ListNotations.
 Local Open Scope string_scope. Local Open Scope list_scope.
 
@@ -58,12 +58,39 @@ Theorem C06_no_early_exit_refuted :
     arr = [LTok (Tok "0.0" "1"); LTerm Completed] /\ lfinal s <> None /\ lout s = [].
 Proof. exists OutAll, [LTok (Tok "0.0" "1"); LTerm Completed]. vm_compute. repeat split; discriminate. Qed.
 (* so the clause holds for the step exactly under the hypothesis of C06_step (all tokens of every instance
-   precede the termination token); that the loop sub-network guarantees this order is not proved here *)
+   precede the termination token); C06_no_early_exit below proves, for the translator's wiring, that the termination
+   token reaches the step only after every instance has emitted *)
 Theorem C06_no_early_exit_partial : forall (pol : policy) (insts : list inst) (arr : list larr),
   Forall inst_ok insts -> NoDup (map ikey insts) -> Permutation arr (all_larr insts) ->
   lfinal (loop_run pol arr) = None /\
   Permutation (lout (loop_run pol arr)) (map (lexpected pol) insts).
 Proof. exact loop_no_early_exit_under_order. Qed.
+
+(* THE WIRING (Loop/Net.v: the sub-network the translator builds -- input forwarder, LoopCombinatorStep with its
+   iteration_termination_checklist, loop-when step with its skip port, body, output and back-propagation forwarders,
+   loop output step, loop-terminator with LoopTerminationCombinator -- as an interleaving transition system over FIFO
+   ports): in EVERY reachable state, for every loop condition [cont], every behaviour [lstep] of the loop output
+   step and every family of instances of equal tag depth, if the loop output step has taken a termination token
+   (or one is on its way to it on E or behind the output forwarder) then it has already emitted an output for every
+   instance.  With C06_step (what is emitted) this is the last clause of the property for the real wiring.
+   Scope: one loop variable, COMPLETED terminations, body emitting one token per token. *)
+Theorem C06_no_early_exit :
+  forall (LS : Type) (lstep : LS -> atok -> LS * list tag * bool) (linit0 : LS) (cont : tag -> bool)
+         (insts : list tag) (d : nat),
+  1 <= d -> (forall p, In p insts -> length p = d) ->
+  forall s, reach LS lstep linit0 cont insts s ->
+  (lgot s = true \/ In ATerm (qE s) \/ In ATerm (qFo s)) ->
+  forall p, In p insts -> In p (emitted s).
+Proof. exact no_early_exit. Qed.
+(* the proviso built into Loop/Net.v (L puts its own termination token on O only after it has taken one from E)
+   holds of LoopOutputStep.run: it never leaves its loop on a termination-free input *)
+Theorem C06_loop_output_runs_until_term : forall pol l,
+  (forall a, In a l -> lprefix a <> None) -> lfinal (loop_run pol l) = None.
+Proof. exact loop_run_no_term. Qed.
+(* the state "L has taken the termination token" is reachable (one instance, zero iterations, 11 moves) *)
+Theorem C06_no_early_exit_nonvacuous :
+  exists s, reach unit ex_lstep tt ex_cont [[0%N]] s /\ lgot s = true /\ emitted s = [[0%N]] /\ cterm s = true.
+Proof. exact ex_run. Qed.
 
 (* LoopCombinator: the first combination of an instance t gets t.0; the one built from the tokens of
    iteration c gets t.(c+1) -- for any state of the counters of the other instances, hence any interleaving *)
@@ -106,5 +133,8 @@ Print Assumptions C06_sort_canonical.
 Print Assumptions C06_all_dict_keys.
 Print Assumptions C06_no_early_exit_refuted.
 Print Assumptions C06_no_early_exit_partial.
+Print Assumptions C06_no_early_exit.
+Print Assumptions C06_loop_output_runs_until_term.
+Print Assumptions C06_no_early_exit_nonvacuous.
 Print Assumptions C06_iteration_tags_first.
 Print Assumptions C06_iteration_tags_next.
